@@ -223,6 +223,7 @@ func c14ImageCheck(cs c14ImgCase) (bad bool, msg string) {
 		src = m
 	}
 	dst := newConcrete(cs.Dst, rect)
+	rng.Fill(pixOf(dst)) // a reused destination: every pixel must be overwritten, transparent ones too
 	if cs.Fn == "LineariseImage" {
 		s.LineariseImage(dst, src, cs.Par)
 	} else {
@@ -249,6 +250,11 @@ func c14ImageCheck(cs c14ImgCase) (bad bool, msg string) {
 			}
 			if aout != ain {
 				return true, fmt.Sprintf("%+v: pixel (%d,%d) alpha %d became %d", cs, x, y, ain, aout)
+			}
+			if _, _, _, a16 := src.At(x, y).RGBA(); a16 == 0 {
+				if r2, g2, b2, a2 := dst.At(x, y).RGBA(); r2|g2|b2|a2 != 0 {
+					return true, fmt.Sprintf("%+v: transparent source pixel (%d,%d) left %v in the destination, want the zero colour", cs, x, y, dst.At(x, y))
+				}
 			}
 		}
 	}
@@ -347,6 +353,23 @@ func runC14(r *core.Run) {
 					if c > 0 && c < a && a < 255 {
 						nt++
 					}
+				}
+			}
+		}
+		// fully transparent carriers with arbitrary colour bytes: every constructor that sees the
+		// colour through color.Color (premultiplied view) must return the zero colour and alpha 0
+		for v := 0; v < 256; v++ {
+			for _, t := range []string{"NRGBA", "NRGBA64", "RGBA64", "RGBA"} {
+				in := [4]uint16{uint16(v), uint16(255 - v), uint16((v * 7) & 255), 0}
+				if t == "NRGBA64" || t == "RGBA64" {
+					in = [4]uint16{uint16(v * 257), uint16(65535 - v*201), uint16(v*7919) | 1, 0}
+				}
+				for _, e := range []string{"ColorFromEncodedColor", "ColorFromLinearColor", "LineariseColor", "EncodeColor", "linear.RGBFromEncoded", "linear.RGBFromLinear"} {
+					cs := c14Case{Space: s.Name, Entry: e, In: in, Type: t}
+					if bad, msg := c14Check(cs); bad {
+						r.Violate("transparent", s.Name+"/"+e+"/"+t+"/transparent", msg, cs)
+					}
+					evals++
 				}
 			}
 		}
